@@ -78,8 +78,13 @@ def main():
         c.violation("eigen-system of %s (sites %s, build %s, partition %s) violates the definition: %s" % (
             s["id"], s["sites"], json.dumps(s["build"])[:200], json.dumps(s["partition"]), json.dumps(brief)[:300]), s, cls="spectrum")
         pos += v.matched + 1
-    import cplxtier
+    import cplxtier, rankstier
     cplxtier.run(c, {"q": "c03", "scale": 16}, "SpectrumTrace", "C03", "eigen-system", 6 if not thorough else 60)
+    # the eigen-system every rank holds after the distributed diagonalisation (blocks are diagonalised on one rank and broadcast)
+    sub = [s for s in scen if s["id"] not in crashed][: (24 if not thorough else 120)]
+    rankstier.run(c, sub, "SpectrumTrace", "C03", "eigen-system", nranks=3)
+    if thorough:
+        rankstier.run(c, sub[:40], "SpectrumTrace", "C03", "eigen-system", nranks=5)
     c.rule = "catalogue + %d random Hermitian models (<= %d modes) x partitions; non-trivial = at least one block larger than 1x1" % (nrand, 6 if thorough else 4)
     c.trusted = ["TLC", "harness c03 (residuals computed against the prepared matrices that TLC compares with the exact ones)", "Eigen for the residual arithmetic"]
     c.assumptions = ["residual and orthonormality tolerance 1e-9 relative to max|H|", "real build"]
